@@ -146,7 +146,13 @@ def histories(run, graphs, seeds, length, *, flavour='plain', concurrent=3, read
             if kw.get('cache') == '__shared__':
                 kw['cache'] = str(d / 'shared-cache')      # one cache directory for every key (the CLI default for one OS user)
             hk = dict(hist_kw)
-            if flavour == 's3':
+            if flavour == 'b2':
+                # the real B2 adapter over a service model with file versions and hide markers
+                from .. import b2store, membackend
+                st = membackend.Store()
+                s = repodrv.Session(g, d, seed=seed, concurrent=concurrent, foreign=foreign, store=st, backend_factory=b2store.factory(st, 2 + seed % 2), **kw)
+                hk.update(p_crash=0.0, p_overlap_fail=0.0)
+            elif flavour == 's3':
                 # the real S3 adapter (paged listings, page size 2 or 3) between the commands and the store; fault-free histories only
                 from .. import membackend, s3store
                 st = membackend.Store()
